@@ -168,6 +168,8 @@ class Exec:
         w.default_group = None
         w.eval_hook = None
         w.armed = True
+        w.mtimes.clear()
+        w.mtime_granularity = k.get("mtime_granularity") or 0.0
         if k.get("locale"):
             # the host application activated a locale whose decimal point is a comma and whose
             # thousands separator is a dot (de_DE, it_IT, ...).  No such locale is installed in
@@ -194,7 +196,15 @@ class Exec:
         self.ref = {}
         for lt in sorted({bool(f.get("log_times")) for f in plan["files"].values()}):
             refdir = os.path.join(self.root, f"ref{int(lt)}")
-            header, rows, keys, gnames, invalid, missing = model.reference_rows(plan["spec"], plan["inputs"], refdir, lt)
+            try:
+                header, rows, keys, gnames, invalid, missing = model.reference_rows(plan["spec"], plan["inputs"], refdir, lt)
+            except model.TsvError as e:
+                # what a plain sequential session wrote is not a well-formed table
+                self.v("row_intact", f"the output of a sequential single-task session cannot be parsed: {e}")
+                if plan.get("check_loader"):
+                    self.v("names", f"the output of a sequential single-task session is not a well-formed table: {e}")
+                self.ref[lt] = None
+                continue
             self.ref[lt] = {"header": header, "rows": rows, "keys": keys, "groups": gnames, "invalid": invalid}
             for k in missing:
                 self.v("exactly_once", f"a sequential single-task session wrote no row for input {k} although its evaluation returned normally")
@@ -537,7 +547,7 @@ class Exec:
         k = plan["knobs"]
         self.phase_idx = pi
         lt = ("panoptica_aggregator.py",) if k.get("line_preempt") else ()
-        s = Scheduler(self.chooser, budget=k.get("budget", 20000), line_trace_files=lt)
+        s = Scheduler(self.chooser, budget=k.get("budget", 400000), line_trace_files=lt)
         if k.get("relpath") is not None:
             os.chdir(self.work)
         self.sched = s
@@ -1145,7 +1155,7 @@ def _reference_image(plan: dict, root: str) -> dict:
     """Its own pristine image: the sequential reference session(s) only."""
     ex = Exec(plan, root)
     ex.compute_ref()
-    return {"ref": {str(int(lt)): r for lt, r in ex.ref.items()}, "violations": [v.as_list() for v in ex.viol]}
+    return {"ref": {str(int(lt)): r for lt, r in ex.ref.items()}, "violations": [v.as_list() for v in ex.viol], "unusable": any(r is None for r in ex.ref.values())}
 
 
 @_guard
@@ -1193,8 +1203,11 @@ def execute(plan: dict, root: str) -> dict:
         st, val = runner.child_call(_reference_image, (plan, root), timeout=150)
         if st != "ok":
             return {"violations": [], "harness_error": f"reference image failed: {str(val)[:800]}"}
-        plan = dict(plan, ref_cache=val["ref"])
         pre = val["violations"]
+        if val.get("unusable"):
+            return {"violations": pre, "harness_error": None, "steps": [], "schedule": [], "digest": _h(pre), "fired": {}, "notes": {"reference_unusable": 1},
+                    "stats": {}, "states": [], "nontrivial": False, "faults_fired": [], "invalid_inputs": [], "sim_time": 0.0, "final_rows": {}, "files_digest": ""}
+        plan = dict(plan, ref_cache=val["ref"])
     ex = Exec(plan, root)
     ex.stats_acc = {}
     ex.sim_time = 0.0
